@@ -1,7 +1,7 @@
 #!/bin/sh
 # tools/seedconfirm.sh "C05:1 ..." : confirm demo (pristine PASS / patched FAIL) and the pinned suite with the patch, in the seed's scratch worktree
 for item in $1; do
-  P=${item%%:*}; K=${item##*:}; WT=/tmp/wt_$P; D=/verif/seeded/${P}_$K
+  P=${item%%:*}; K=${item##*:}; WT=/tmp/wt_$P; D=/verif/seeded/${P}_${K}${SEED_SUFFIX}
   mkdir -p $D; cp $WT/_seed/patch$K.diff $D/patch.diff; cp $WT/_seed/demo$K.py $D/demo.py; cp $WT/_seed/notes$K.md $D/notes.md
   L=$D/confirm.log; : > $L
   (cd $WT && git checkout -q -- .
